@@ -8,6 +8,7 @@ The C01 contracts stay attached to localise a failure.
 
 import collections
 import os
+from vf.util import vary_name  # noqa: E402
 
 from vf import monitor as M
 from vf.cli import run_cli
@@ -71,7 +72,7 @@ def run_case(ctx, rng, index, casedir):
     sit = collections.Counter()
     viol = []
     g = rgfa.gen_rgfa(rng, size=rng.choice(["small", "medium", "medium"]), min_seg=1)
-    gpath = g.write(os.path.join(casedir, "g.gfa" + (".gz" if rng.random() < 0.2 else "")), rng=rng, shuffle=rng.random() < 0.5)
+    gpath = g.write(os.path.join(casedir, vary_name(rng, "g.gfa") + (".gz" if rng.random() < 0.2 else "")), rng=rng, shuffle=rng.random() < 0.5)
     M.CTX["coords"] = rgaf.Coords(g)
     hi = 400 if ctx.tier == "quick" else rng.choice([400, 1500, 5000])
     nrec = rng.choice([1, 2, 3, rng.randint(4, 40), rng.randint(40, hi)])
@@ -85,7 +86,7 @@ def run_case(ctx, rng, index, casedir):
     mode = rng.choice(["plain", "bgzf", "pysam"])
     if mode != "plain":
         sit["bgzf_input"] += 1
-    U = os.path.join(casedir, "U.gaf" + ("" if mode == "plain" else ".gz"))
+    U = os.path.join(casedir, vary_name(rng, "U.gaf") + ("" if mode == "plain" else ".gz"))
     ggaf.write_gaf(U, [r.line for r in recs], mode=mode, rng=rng, layout=rng.choice(["standard", "tiny", "line_start"]))
     u_lines = [r.line for r in recs]
     u_recs = [rgaf.Rec(l) for l in u_lines]
